@@ -602,7 +602,7 @@ def gauss_grid(kvs, nqp):
     return grids, weights
 
 
-def l2_oracle(kvs, ps, trailing, data, geo, f_physical, r, P=None):
+def l2_oracle(kvs, ps, trailing, data, geo, f_physical, r, P=None, dense=None):
     """returns (M, b [N x T], fvals-derived c or None)"""
     d = len(kvs)
     nqp = max(ps) + 1
@@ -643,12 +643,19 @@ def l2_oracle(kvs, ps, trailing, data, geo, f_physical, r, P=None):
             F[..., t] = v
     Ct = [C.T for C in Cq]
     b = kron_apply(Ct, F * W[..., None]).reshape(prod(N), T)
-    # M_ij = sum_q w_q phi_i(q) phi_j(q): build the full collocation at all quadrature points
+
+    def matvec(x):
+        # M x = C^T (W .* (C x)),  M_ij = sum_q w_q phi_i(q) phi_j(q), without forming M
+        X = np.asarray(x).reshape(N + [-1])
+        return kron_apply(Ct, kron_apply(Cq, X) * W[..., None]).reshape(prod(N), -1)
+    if dense is False or (dense is None and prod(N) > 700):
+        # entries of M are non-negative: ||M||_2 <= ||M||_inf = max_i (M 1)_i
+        return matvec, b, float(np.max(matvec(np.ones(prod(N)))))
     Cfull = Cq[0]
     for C in Cq[1:]:
         Cfull = np.kron(Cfull, C)
     M = Cfull.T @ (W.ravel()[:, None] * Cfull)
-    return M, b
+    return M, b, None
 
 
 def tau(N):
@@ -674,15 +681,20 @@ def check_l2_on_impl(case, r):
     Ns = [len(kv) - p - 1 for kv, p in zip(kvs, ps)]
     if r['shape'] != Ns + trailing:
         return [('shape', 'result has shape %s, expected %s' % (r['shape'], Ns + trailing))], {}
-    M, b = l2_oracle(kvs, ps, trailing, case['data'], geo, bool(case.get('f_physical')), r)
-    N = M.shape[0]
+    M, b, nMinf = l2_oracle(kvs, ps, trailing, case['data'], geo, bool(case.get('f_physical')), r)
+    N = b.shape[0]
     x = np.array([float.fromhex(h) for h in r['x']]).reshape(N, -1)
     t = tau(N)
-    nM = np.linalg.norm(M, 2)
+    if nMinf is None:
+        nM = np.linalg.norm(M, 2)
+        Mx = M @ x
+    else:                       # large space: matrix-free, ||M||_2 bounded by ||M||_inf
+        nM = nMinf
+        Mx = M(x)
     info = {'warned': bool(r.get('stderr', '').strip())}
     worst = 0.0
     for k in range(x.shape[1]):
-        res = np.linalg.norm(b[:, k] - M @ x[:, k])
+        res = np.linalg.norm(b[:, k] - Mx[:, k])
         lim = t * (np.linalg.norm(b[:, k]) + nM * np.linalg.norm(x[:, k]))
         if lim > 0:
             worst = max(worst, res / lim)
@@ -700,7 +712,7 @@ def check_l2_on_impl(case, r):
             bad.append((code, 'residual of the L2 projection is not orthogonal to the space: |b - M x| = %.3g > %.3g%s' % (res, lim, why)))
             break
     info['residual_over_bound'] = worst
-    if case['data']['kind'] == 'space' and not bad:
+    if case['data']['kind'] == 'space' and not bad and nMinf is None:
         c = np.array([float(cnum(v)) for v in case['data']['coeffs']]).reshape(N, -1)
         cond = np.linalg.cond(M)
         for k in range(x.shape[1]):
@@ -714,7 +726,7 @@ def check_l2_on_impl(case, r):
         lv = np.array([float.fromhex(h) for h in r['lv_1d']])
         if np.linalg.norm(lv - b[:, 0]) > 64 * N * FEPS * (np.linalg.norm(b[:, 0]) + nM * np.linalg.norm(x[:, 0])):
             bad.append(('load-vector-1d', 'bspline.load_vector differs from the quadrature inner products'))
-        res = np.linalg.norm(b[:, 0] - M @ x1)
+        res = np.linalg.norm(b[:, 0] - (M @ x1 if nMinf is None else M(x1)[:, 0]))
         if res > t * (np.linalg.norm(b[:, 0]) + nM * np.linalg.norm(x1)):
             bad.append(('project-1d', 'bspline.project_L2 residual not orthogonal: %.3g' % res))
     return bad, info
@@ -730,7 +742,7 @@ def check_hspace_on_impl(case, r):
     fine = [[float.fromhex(h) for h in k['kv']] for k in r['fine_kvs']]
     ps = [k['p'] for k in r['fine_kvs']]
     P = np.array([float.fromhex(h) for h in r['P']]).reshape(r['P_shape'])
-    Mf, bf = l2_oracle(fine, ps, [], case['data'], case.get('geo'), bool(case.get('f_physical')), r, P=P)
+    Mf, bf, _ = l2_oracle(fine, ps, [], case['data'], case.get('geo'), bool(case.get('f_physical')), r, P=P, dense=True)
     M = P.T @ Mf @ P
     b = P.T @ bf[:, 0]
     x = np.array([float.fromhex(h) for h in r['x']])
@@ -813,7 +825,7 @@ def gen_l2_cases(ctx, n):
                           'geo': {'kind': 'scaled_square' if d == 2 else 'scaled_cube', 's': [1, 2 ** s]},
                           'data': {'kind': 'space', 'coeffs': [[rng.randint(-64, 64), 8] for _ in range(prod(N))], 'route': 'bsplinefunc'},
                           'gk': 'small-domain', 'dk': 'space'})
-    for (p, n, r1) in ([(3, 20, [1, 1024])] if not thorough else [(3, 20, [1, 1024]), (2, 24, [1, 4096]), (3, 40, [1, 1024]), (3, 28, [1, 256])]):
+    for (p, n, r1) in ([(3, 40, [1, 1024])] if not thorough else [(3, 20, [1, 1024]), (2, 24, [1, 4096]), (3, 40, [1, 1024]), (3, 28, [1, 256])]):
         kv = [Fraction(0)] * (p + 1) + [Fraction(i, n) for i in range(1, n)] + [Fraction(1)] * (p + 1)
         N = [n + p, n + p]
         cases.append({'op': 'l2', 'kvs': [kvspec(kv, p), kvspec(kv, p)], 'trailing': [], 'f_physical': False,
@@ -905,11 +917,14 @@ def run(ctx):
     ctx.cov['parts'] = parts
     allc = icases + lcases + hcases
     results = []
-    B = 40
+    B = 400
     for i in range(0, len(allc), B):
         payload = [{k: v for k, v in c.items() if k not in ('gk', 'dk', 'expect', 'small')} for c in allc[i:i + B]]
         results += ctx.impl.run(DRIVER, {'cases': payload}, timeout=2400)['results']
     log('[C17] implementation ran %d cases, %.0fs' % (len(allc), __import__('time').time() - ctx.t0))
+    for nm, lo, hi in (('interp', 0, len(icases)), ('l2', len(icases), len(icases) + len(lcases)), ('hspace', len(icases) + len(lcases), len(allc))):
+        log('[C17]   %s: %d cases, driver cpu %.1fs wall %.1fs' % (nm, hi - lo, sum(r.get('cpu_s', 0) for r in results[lo:hi]),
+                                                                  sum(r.get('wall_s', 0) for r in results[lo:hi])))
     ires, lres, hres = results[:len(icases)], results[len(icases):len(icases) + len(lcases)], results[len(icases) + len(lcases):]
     dist = {'interp': {}, 'l2': {}, 'hspace': {}, 'dims': {}, 'degrees': {}, 'custom_nodes': 0, 'trailing': {}}
     nfail = 0
@@ -960,12 +975,12 @@ def run(ctx):
     ctx.cov['traces_validated_against_impl'] = len(allc)
     ctx.cov['property_failures_on_impl'] = nfail
     ctx.cov['max_l2_residual_over_bound'] = max([i.get('residual_over_bound', 0.0) for i in linfo] + [0.0])
-    log('[C17] oracles done, %.0fs; %d cases for the Coq model' % (__import__('time').time() - ctx.t0, len(coq_items)))
     # correspondence with the Coq model (a few cases per file, files in parallel)
     PER = 3
     # the structured small stream first, then the malformed / other eligible cases, up to the cap
     coq_items.sort(key=lambda it: (0 if icases[it[0]].get('small') else (1 if icases[it[0]]['dk'] == 'repeated-node' else 2), it[0]))
     coq_items = coq_items[:(96 if thorough else 20)]
+    log('[C17] oracles done, %.0fs; %d cases for the Coq model' % (__import__('time').time() - ctx.t0, len(coq_items)))
     coq_files, coq_index = [], []
     for i in range(0, len(coq_items), PER):
         chunk = coq_items[i:i + PER]
@@ -1024,9 +1039,20 @@ def run(ctx):
 
 
 META = {
-    'technique': 'Rocq proofs (apply_tprod loop = Kronecker product for any dimension, composition, identity; interpolation and '
-                 'discrete L2 projection as linear algebra over the solver contracts) + correspondence of approx.interpolate with the '
-                 'exact Qc model within a derived rounding bound + independent oracles for L2 / geometry / hierarchical projection',
-    'level_text': 'see coq/C17/Props.v; tie and bounds in harness/props/c17.py',
-    'level_note': 'partial: solvers by contract; Gauss quadrature, geometry maps and hierarchical assembly only through the oracle',
+    'technique': 'Rocq proofs (the apply_tprod loop equals the Kronecker product for every dimension and trailing axes; composition, '
+                 'identity; interpolation and the discrete geometry-weighted L2 projection as linear algebra over the solver contracts; '
+                 'SPD of the quadrature Gram matrix) + correspondence of approx.interpolate with the exact Qc model within a derived '
+                 'rounding bound + independent oracles (exact Fractions; own float64 quadrature) for L2 / geometry / hierarchical projection',
+    'level_text': 'Theorems (Coq, unbounded, coq/C17/Props.v): apply_tprod_is_kronecker (tensor.py loop = sum_j prod_k B_k[i_k,j_k] X[j,t] for any number of '
+                  'operators, sizes, trailing axes), tprod_compose, interp_reproduces, interp_matches_nodes (any unisolvent node grid: hypothesis S_k C_k = I '
+                  'resp. C_k S_k = I, checked per case by exact inversion), data_componentwise, physical_equals_pullback, l2_residual_orthogonal, '
+                  'l2_reproduces, mass_injective (positive weights + unisolvent basis => injective Gram matrix), l2_kron_reproduces (Kronecker path). '
+                  'Tie: approx.interpolate (default Greville and custom nodes, splines/polynomials/arrays, scalar/vector/matrix data, affine geometry) '
+                  'against the exact model by vm_compute (20 quick / 96 thorough cases) within the bound stated in harness/props/c17.py, Greville nodes and '
+                  'singular-grid status included; every case (dims 1..3, degrees 0..6, NURBS/B-spline/twisted geometries, 1D routines, pull-back route) '
+                  'against an exact Fraction oracle; project_L2 (Kronecker, CG with geometry, hierarchical HB/THB) against an independent quadrature '
+                  'oracle: residual orthogonality |b - M x| <= tau(|b| + |M||x|), reproduction within tau cond(M).',
+    'level_note': 'partial: solvers (SuperLU/LAPACK/CG) enter by contract, Schoenberg-Whitney is checked per case not proved, Gauss quadrature / geometry '
+                  'maps / hierarchical assembly are covered by the oracle only (no Coq model of irrational Gauss nodes); LU growth factor <= 8 assumed in the float bound. '
+                  'Trusted: Coq kernel + vm_compute, hand transcription in coq/C17/Model.v and coq/lib/Bsp.v (validated each run), harness oracles.',
 }
